@@ -39,6 +39,8 @@ fn dispatch(req: &Req) -> R<String> {
 		"bigshuf" => enumr::bigshuf(req),
 		"stat" => stat::stat(req),
 		"statd" => stat::statd(req),
+		"zstat" => stat::zstat(req),
+		"zfind" => stat::zfind(req),
 		"chacha" => chacha::chacha(req),
 		"slpblock" => chacha::slpblock(req),
 		"serde" => serde_rt::serde(req),
